@@ -139,8 +139,13 @@ def run_lives(plans: list, root: Path, workers: int = 16, budget_s: float = 900.
             shutil.rmtree(pdir / sub, ignore_errors=True)
         return res
 
+    # longest histories first (shorter tail); results are still returned in plan order
+    order = sorted(range(len(plans)), key=lambda i: (-len(plans[i].get("ops", [])), i))
+    results: list = [None] * len(plans)
     with ThreadPoolExecutor(max_workers=workers) as ex:
-        results = list(ex.map(one, list(enumerate(plans))))
+        futs = {i: ex.submit(one, (i, plans[i])) for i in order}
+        for i in order:
+            results[i] = futs[i].result()
     for r in results:
         if "harness_error" in r:
             raise HarnessError("life %s: %s %s" % (r.get("life"), r["harness_error"], r.get("trace", "")))
